@@ -178,15 +178,31 @@ class Scenario:
             # invariant test: the target's mutator runs the counted loop and stores the trip count; the invariant says v != K
             from evm.asm import initcode_for
 
+            # where the counted loop sits: in the target's mutator (it stores the trip count) or in the invariant function itself
+            # (the mutator stores n & mask, the invariant counts up to the stored value); a second mutator touching another slot
+            # gives the frontier a state on which nothing is cut, explored before or after the one on which the loop is cut
+            self.loop_in_invariant = ch.chance(0.4, "s.loopinv")
+
             def target_mut(a):
+                if self.loop_in_invariant:
+                    a.push(self.mask).push(4).op("CALLDATALOAD").op("AND").push(0).op("SSTORE").op("STOP")
+                    return
                 emit_counted_loop(a, lambda a_: (a_.push(self.mask), a_.push(4), a_.op("CALLDATALOAD"), a_.op("AND")))
                 a.push(0x1C0).op("MLOAD").push(0).op("SSTORE").op("STOP")
+
+            def target_other(a):
+                a.push(1).push(1).op("SSTORE").op("STOP")
 
             def target_get(a):
                 a.push(0).op("SLOAD").push(0x80).op("MSTORE").push(0x20).push(0x80).op("RETURN")
 
-            self.target_rt = A.build_runtime({"run(uint256)": target_mut, "getV()": target_get})
-            self.target_abis = [A.abi_item("run(uint256)", ["n"]), A.abi_item("getV()", outputs=["uint256"], mutability="view")]
+            tf = [("run(uint256)", target_mut, A.abi_item("run(uint256)", ["n"])), ("other()", target_other, A.abi_item("other()"))]
+            if ch.chance(0.5, "s.torder"):
+                tf.reverse()
+            if not ch.chance(0.7, "s.tother"):
+                tf = [t for t in tf if t[0] != "other()"]
+            self.target_rt = A.build_runtime({**{n_: f_ for n_, f_, _ in tf}, "getV()": target_get})
+            self.target_abis = [ab for _, _, ab in tf] + [A.abi_item("getV()", outputs=["uint256"], mutability="view")]
             tinit = initcode_for(self.target_rt)
             self.target_init = tinit
             self.k = max(self.k, 1)  # v == 0 initially: K = 0 would already fail at depth 0
@@ -204,6 +220,9 @@ class Scenario:
                 sel = int.from_bytes(A.selector("getV()"), "big")
                 a.push(sel << 224).push(0x300).op("MSTORE")
                 a.push(0x20).push(0x320).push(4).push(0x300).push(0).op("SLOAD").push(0xFFFF).op("STATICCALL").op("POP")
+                if self.loop_in_invariant:
+                    emit_counted_loop(a, lambda a_: (a_.push(0x320), a_.op("MLOAD")))
+                    a.push(0x1C0).op("MLOAD").push(0x320).op("MSTORE")
                 ok = a.fresh("ok")
                 a.push(0x320).op("MLOAD").push(self.k).op("EQ").op("ISZERO").jumpi(ok)
                 A.emit_panic(a, 1)
@@ -396,8 +415,8 @@ class C10Check:
                     probes["verdict_" + str(verdict)] = probes.get("verdict_" + str(verdict), 0) + 1
                     flagged = bool(r.num_bounded_loops) or any(any(wd in m for wd in FLAG_WORDS) and r.name.split("(")[0] in m for m in logs) \
                         or any("setUp" in m and "loop unrolling bound" in m for m in logs)
-                    if sc.kind == "inv_loop" and any("loop unrolling bound" in m and "run(uint256)" in m for m in logs):
-                        flagged = True  # the cut is reported for the target function whose loop was cut
+                    if sc.kind == "inv_loop" and any("loop unrolling bound" in m and ("run(uint256)" in m or "invariant_v" in m) for m in logs):
+                        flagged = True  # the cut is reported for the function whose loop was cut
                     if flagged:
                         probes["flagged"] = probes.get("flagged", 0) + 1
                     if verdict != "PASS":
@@ -414,7 +433,7 @@ class C10Check:
                                             detail=f"[PASS] although n=9 fails after a loop with the concrete trip count {sc.c}; --loop {sc.loop}"))
                         elif not flagged:
                             if sc.kind == "inv_loop":
-                                vio.append(dict(oracle="C10:silent-cut", disc="invariant-target" + ("" if ri == 0 else ":" + sc.history),
+                                vio.append(dict(oracle="C10:silent-cut", disc=("invariant-function" if getattr(sc, "loop_in_invariant", False) else "invariant-target") + ("" if ri == 0 else ":" + sc.history),
                                                 detail=f"[PASS] for {r.name} (--invariant-depth 1, --loop {sc.loop}) without any bound warning although "
                                                        f"the single call run({fails[0]}) breaks v != {sc.k} on the reference EVM: the loop inside the "
                                                        f"target was cut after {sc.loop} iterations; log of that run: {logs[-3:]}"))
